@@ -81,3 +81,42 @@ Proof.
   apply andb_true_iff in H. destruct H as [H1 H2]. unfold escape_byte. rewrite H1. simpl.
   f_equal. apply IH, H2.
 Qed.
+
+(** ** the all-bytes lower-case encoder decodes back too *)
+Definition byte_ok_all_enc (b : byte) : bool :=
+  is_hex (hex_digit_lower (bN b / 16)) && is_hex (hex_digit_lower (bN b mod 16))
+  && Byte.eqb (byte_of (16 * unhex (hex_digit_lower (bN b / 16)) + unhex (hex_digit_lower (bN b mod 16)))) b.
+
+Lemma byte_ok_all_enc_all : forall b, byte_ok_all_enc b = true.
+Proof. apply sweep. vm_compute. reflexivity. Qed.
+
+Lemma unescape_escape_all_byte b r :
+  unescape (escape_all_byte b ++ r) = option_map (cons b) (unescape r).
+Proof.
+  pose proof (byte_ok_all_enc_all b) as H. unfold byte_ok_all_enc in H.
+  apply andb_true_iff in H. destruct H as [H H3].
+  apply andb_true_iff in H. destruct H as [H1 H2].
+  apply byte_eqb_eq in H3.
+  change (unescape (escape_all_byte b ++ r))
+    with (if is_hex (hex_digit_lower (bN b / 16)) && is_hex (hex_digit_lower (bN b mod 16))
+          then option_map (cons (byte_of (16 * unhex (hex_digit_lower (bN b / 16)) + unhex (hex_digit_lower (bN b mod 16))))) (unescape r)
+          else None).
+  rewrite H1, H2, H3. reflexivity.
+Qed.
+
+Theorem escape_all_roundtrip : forall s, unescape (escape_all s) = Some s.
+Proof.
+  induction s as [|b s IH]; [reflexivity|].
+  change (escape_all (b :: s)) with (escape_all_byte b ++ escape_all s).
+  rewrite unescape_escape_all_byte, IH. reflexivity.
+Qed.
+
+Lemma escape_all_byte_chars : forall b, forallb esc_char (escape_all_byte b) = true.
+Proof. apply sweep. vm_compute. reflexivity. Qed.
+
+Lemma escape_all_chars : forall s, forallb esc_char (escape_all s) = true.
+Proof.
+  induction s as [|b s IH]; [reflexivity|].
+  change (escape_all (b :: s)) with (escape_all_byte b ++ escape_all s).
+  rewrite forallb_app, escape_all_byte_chars, IH. reflexivity.
+Qed.
